@@ -771,11 +771,15 @@ def formula_grammar(table):
     compound = compound.setParseAction(convert_compound)
 
     partsep = space + Literal('//').suppress() + space
+    # Note: the space after the percent must be consumed for every form of
+    # percent, otherwise a part starting with a count, such as "20% 2MgO",
+    # is rejected because count must not be preceded by white space.
     percent = Literal('%').suppress()
     weight = Regex("(w((eigh)?t)?|m(ass)?)").suppress()
     volume = Regex("v(ol(ume)?)?").suppress()
-    weight_percent = (percent + weight) | (weight + percent) + space
-    volume_percent = (percent + volume) | (volume + percent) + space
+    weight_percent = ((percent + weight) | (weight + percent)) + space
+    volume_percent = ((percent + volume) | (volume + percent)) + space
+    percent = percent + space
     by_weight = (count + weight_percent + mixture
                  + ZeroOrMore(partsep+count+(weight_percent|percent)+mixture)
                  + partsep + mixture)
